@@ -1,6 +1,8 @@
 package main
 
 import (
+	"os"
+	"runtime/debug"
 	"fmt"
 	"go/constant"
 	"go/token"
@@ -116,9 +118,15 @@ type Enc struct {
 	localAllocs []*ssa.Alloc
 	needFP      bool
 	needBE      bool
+	needB       bool // byte-string algebra used
+	noCouple    bool // temporarily: forget byte cells without forgetting slice contents
+	token       bool // contract says `bytes token`
 	defsOn      bool
 	axiomsUsed  []string
 	specUsed    map[string]bool
+	foldDone    map[string]bool
+	named       map[string]string
+	readTrace   map[string]bool
 	specDecls   []string
 	usedLock    bool
 	pendingGuard string
@@ -148,6 +156,7 @@ func newEnc(w *World, cs *Contracts, fn *ssa.Function) *Enc {
 	e.ct = cs.For(e.name)
 	if e.ct != nil {
 		e.precise = e.ct.Bytes == "array"
+		e.token = e.ct.Bytes == "token"
 		e.checkOvf = e.ct.Overflow == "check"
 	}
 	return e
@@ -313,6 +322,9 @@ func (e *Enc) typeFacts(x string, t types.Type) string {
 // heap access
 
 func (e *Enc) heapGet(h *Heap, key, sort string) string {
+	if e.readTrace != nil {
+		e.readTrace[key] = true
+	}
 	if t, ok := h.m[key]; ok {
 		return t
 	}
@@ -340,7 +352,7 @@ func (e *Enc) epochGet(ep *epoch, key, sort string) string {
 		return t
 	}
 	n := fmt.Sprintf("H%d_%s", ep.id, sanitize(key))
-	full := "(Array Ref " + sort + ")"
+	full := arrSort(key, sort)
 	if key == "$A" {
 		full = "Int"
 	}
@@ -394,7 +406,7 @@ func (e *Enc) epochGet(ep *epoch, key, sort string) string {
 			e.assert(app("=", n, old)) // which defers this activation has registered is its own business
 		} else if strings.HasPrefix(key, "$s:") {
 		} else if ep.frame != nil && !strings.HasPrefix(key, "$") {
-			e.frameOf[n] = &frameInfo{prev: old, apre: ep.frame.apre, except: ep.frame.except}
+			e.frameOf[n] = &frameInfo{key: key, prev: old, apre: ep.frame.apre, except: ep.frame.except}
 		} else {
 			for _, c := range e.localCells[key] {
 				e.assert(app("=", app("select", n, c), app("select", old, c)))
@@ -542,7 +554,7 @@ func (e *Enc) compact(h *Heap) {
 			} else if strings.HasPrefix(k, "$s:") {
 				n = e.fresh("G", e.heapSort[k])
 			} else {
-				n = e.fresh("H_"+sanitize(k), "(Array Ref "+e.heapSort[k]+")")
+				n = e.fresh("H_"+sanitize(k), arrSort(k, e.heapSort[k]))
 			}
 			e.assert(app("=", n, t))
 			e.baseOf[n] = t
@@ -553,6 +565,10 @@ func (e *Enc) compact(h *Heap) {
 
 // havocKey replaces key by a fresh heap that agrees with the old one on non-escaping local cells.
 func (e *Enc) havocKey(h *Heap, key string) {
+	if key == "T:uint8" && e.needB && !e.noCouple {
+		e.bytesHeap(h)
+		e.havocKey(h, "$bytes") // contents of byte slices are forgotten with the bytes
+	}
 	if key == "$A" {
 		old := e.allocCounter(h)
 		n := e.fresh("A", "Int")
@@ -571,7 +587,10 @@ func (e *Enc) havocKey(h *Heap, key string) {
 		return
 	}
 	old := e.heapGet(h, key, srt)
-	n := e.fresh("H_"+sanitize(key), "(Array Ref "+srt+")")
+	n := e.fresh("H_"+sanitize(key), arrSort(key, srt))
+	if os.Getenv("GOBTVC_DEBUG_FRAME") != "" && key == "$bytes" {
+		fmt.Fprintf(os.Stderr, "plain havoc of $bytes -> %s\n%s\n", n, debug.Stack())
+	}
 	e.wm[n] = e.allocCounter(h)
 	e.closedness(n, key, srt)
 	for _, c := range e.localCells[key] {
@@ -686,7 +705,7 @@ func (e *Enc) joinHeaps(ps []epParent) *Heap {
 		} else if strings.HasPrefix(k, "$s:") {
 			n = e.fresh("G", srt)
 		} else {
-			n = e.fresh("H_"+sanitize(k), "(Array Ref "+srt+")")
+			n = e.fresh("H_"+sanitize(k), arrSort(k, srt))
 		}
 		e.assert(app("=", n, t))
 		e.baseOf[n] = t
@@ -1022,6 +1041,7 @@ func (e *Enc) noteRoot(name, sortS, t string) {
 
 // frameInfo: heap constant n agrees with prev on every cell whose allocation root is <= apre and is not one of except.
 type frameInfo struct {
+	key    string
 	prev   string
 	apre   string
 	except []string // roots (Int terms) of arrays the callee/loop may write
@@ -1060,9 +1080,9 @@ func (e *Enc) selDepth(ht, addr string, depth int) string {
 	// that could hit addr; we therefore rewrite only when ht itself is the framed constant or a named alias of it
 	b := ht
 	if fi, ok := e.frameOf[b]; ok {
-		cond := app("<=", e.rootOf(addr), fi.apre)
+		cond := app("<=", e.addrRoot(fi.key, addr), fi.apre)
 		for _, x := range fi.except {
-			cond = and(cond, app("distinct", e.rootOf(addr), x))
+			cond = and(cond, app("distinct", e.addrRoot(fi.key, addr), x))
 		}
 		return app("ite", cond, e.selDepth(fi.prev, addr, depth+1), app("select", b, addr))
 	}
@@ -1112,14 +1132,18 @@ func (e *Enc) mentionsFrame(t string, depth int) bool {
 
 // havocKeyFramed: like havocKey, but cells allocated no later than apre (and not rooted at one of except) keep their value.
 func (e *Enc) havocKeyFramed(h *Heap, key string, apre string, except []string) {
+	if key == "T:uint8" && e.needB && !e.noCouple {
+		e.bytesHeap(h)
+		e.havocKeyFramed(h, "$bytes", apre, except) // same frame: slices over untouched arrays keep their content
+	}
 	srt, ok := e.heapSort[key]
 	if !ok {
 		e.pendingHavoc(h, key)
 		return
 	}
 	old := e.heapGet(h, key, srt)
-	n := e.fresh("H_"+sanitize(key), "(Array Ref "+srt+")")
-	e.frameOf[n] = &frameInfo{prev: old, apre: apre, except: except}
+	n := e.fresh("H_"+sanitize(key), arrSort(key, srt))
+	e.frameOf[n] = &frameInfo{key: key, prev: old, apre: apre, except: except}
 	e.wm[n] = e.allocCounter(h)
 	e.closedness(n, key, srt)
 	h.m[key] = n
@@ -1196,4 +1220,21 @@ func (e *Enc) closedness(n, key, sort string) {
 	case "Slice":
 		e.assert(fmt.Sprintf("(forall ((r Ref)) (! (<= (rootid (sarr (select %s r))) %s) :pattern ((select %s r))))", n, w, n))
 	}
+}
+
+// arrSort: SMT sort of the heap for a key. Byte-string contents ($bytes) are indexed by slice header, everything else by
+// cell address.
+func arrSort(key, elemSort string) string {
+	if key == "$bytes" {
+		return "(Array Slice B)"
+	}
+	return "(Array Ref " + elemSort + ")"
+}
+
+// addrRoot: allocation root of an index into heap `key`.
+func (e *Enc) addrRoot(key, addr string) string {
+	if key == "$bytes" {
+		return e.rootOf(app("sarr", addr))
+	}
+	return e.rootOf(addr)
 }
